@@ -28,7 +28,7 @@ D = {
          "Trusted: differential oracle (same code, unaliased) + reference model.", MC),
  "C11": ("E1", "For every x in D(3) ∪ R(45) ∪ W(3,S7) (low/interior zero words) x exponents ±25 and range ends, ±0, ±Inf: Text/Append with e,E,f,g,G,p (-1) and b, MarshalText, JSON -> Parse base 10/0, SetString, UnmarshalText, JSON at receiver precisions >= MinPrec; parsed value must equal x exactly with Acc Exact and the output must contain exactly MinPrec significant digits.",
          "Trusted: digit extraction in the harness. 'f' only for moderate exponents.", MC),
- "C12": ("E1", "All strings of length <= 6 (7 thorough) over a 14-symbol alphabet x 5 bases against a reference grammar and, differentially, math/big Float.Parse (accept set and base); structured decimal literals split around the radix point everywhere with separators and huge exponents x precisions x modes against the exact literal evaluator; base 2/8/16 and p-exponent literals exact-or-within-1ulp; SetString/ParseDecimal/UnmarshalText/Sscan agree with Parse.",
+ "C12": ("E1", "All strings of length <= 6 (7 thorough) over a 14-symbol alphabet x 5 bases against a reference grammar and, differentially, math/big Float.Parse (accept set and base); structured decimal literals split around the radix point everywhere with separators and huge exponents x precisions x modes against the exact literal evaluator; base 2/8/16 and p-exponent literals exact-or-within-1ulp; SetString/ParseDecimal/UnmarshalText/Sscan agree with Parse. Long mantissas cancelled by binary exponents of up to ±280000 bits (exact powers of two of 10^4+ digits).",
          "Trusted: reference grammar/evaluator in mc/parse.go, math/big as differential oracle for the accept set.", MC + "; differential against math/big"),
  "C13": ("E1", "Values (each also as the same value carrying accuracy Below/Above from an earlier operation) x 6 modes x formats e,E,f,g,G,p,b x precisions -1..40 against a reference formatter (round once at the requested position under x's mode, then strconv layout), fmt verbs x all 16 flag subsets x widths x precisions against fmt's own float64 formatting on float64-exact values; the reference formatter is pinned to strconv.FormatFloat in the same run.",
          "Trusted: reference formatter pinned to strconv/fmt of the toolchain.", MC),
